@@ -231,7 +231,7 @@ def run(main_module, cfg, *, extra_files=None, workers=16, timeout=900,
         r.raw_tail = tail[-60:]
         r.error_text = "\n".join(err_lines[:200])
         if p.returncode != 0 and r.violation is None:
-            raise TLCError("TLC exit %s\n%s" % (p.returncode, "\n".join(tail[-60:])))
+            raise TLCError("TLC exit %s\n%s\n...\n%s" % (p.returncode, "\n".join(err_lines[:25]), "\n".join(tail[-40:])))
         return r
     finally:
         if not keep:
